@@ -191,6 +191,13 @@ func fidelityLog(caseID string, seed int64) {
 			judgeFidelity(caseID, f, func() interface{} {
 				return map[string]interface{}{"case_seed": seed, "retention_autocreate": p.AutoCreate, "entries": n, "log": descs[:n], "hex": hexes[:n]}
 			})
+			if caseID == "fid/log/0" && i == p.N-1 {
+				first := descs
+				if len(first) > 12 {
+					first = first[:12]
+				}
+				r.Sample(map[string]interface{}{"case": caseID, "monitor": "a", "entries": n, "first_entries": first})
+			}
 		}
 	}
 }
@@ -368,6 +375,13 @@ func fidelityDirect(caseID string, seed int64) {
 		return map[string]interface{}{"case_seed": seed, "value": canon(x, canonExact, nil)}
 	})
 	r.Count("a_direct_values", 1)
+	if caseID == "fid/direct/0" {
+		v := canon(x, canonExact, nil)
+		if len(v) > 1500 {
+			v = v[:1500] + "..."
+		}
+		r.Sample(map[string]interface{}{"case": caseID, "monitor": "a", "directly_populated_value": v})
+	}
 }
 
 // ---------------------------------------------------------------- driver
